@@ -635,7 +635,9 @@ func (p *partition) getStopOffset(req *client.SubscribeRequest) (int64, *status.
 	switch req.StopPosition {
 	case client.StopPosition_STOP_ON_CANCEL:
 		stopOffset = waitForNewMessages
-		if p.log.IsReadonly() {
+		// A readonly partition ends at the end of the log. This is where a
+		// reverse subscription starts, so it applies to forward ones only.
+		if !req.Reverse && p.log.IsReadonly() {
 			stopOffset = p.log.NewestOffset()
 		}
 	case client.StopPosition_STOP_OFFSET:
